@@ -128,7 +128,7 @@ fn post(input: &Value) -> OpResult {
 // digest of emitted files
 
 /// (name, through_map, through_vec) for every single-segment path type below `ty` that is not a std wrapper
-fn walk(ty: &syn::Type, map: bool, vec: bool, arr: bool, out: &mut Vec<(String, bool, bool, bool)>, paths: &mut Vec<String>) {
+fn walk(ty: &syn::Type, map: bool, vec: bool, arr: bool, wrap: bool, out: &mut Vec<(String, bool, bool, bool, bool)>, paths: &mut Vec<String>) {
   match ty {
     syn::Type::Path(tp) => {
       let last = tp.path.segments.last().unwrap();
@@ -141,24 +141,24 @@ fn walk(ty: &syn::Type, map: bool, vec: bool, arr: bool, out: &mut Vec<(String, 
       match name.as_str() {
         // a TypeRef prints as Option<Vec<Box<base>>>; a Vec or an Option INSIDE a Vec can only come from a base
         // type whose atom is the whole text (`Vec<X>` / `Option<X>` built by array_item_type().to_rust_type())
-        "Box" => args.iter().for_each(|a| walk(a, map, vec, arr, out, paths)),
-        "Option" => args.iter().for_each(|a| walk(a, map, vec, arr || vec, out, paths)),
-        "Vec" | "HashSet" | "BTreeSet" => args.iter().for_each(|a| walk(a, map, true, arr || vec, out, paths)),
-        "HashMap" | "BTreeMap" => args.iter().for_each(|a| walk(a, true, vec, arr, out, paths)),
+        "Box" => args.iter().for_each(|a| walk(a, map, vec, arr, true, out, paths)),
+        "Option" => args.iter().for_each(|a| walk(a, map, vec, arr || vec, true, out, paths)),
+        "Vec" | "HashSet" | "BTreeSet" => args.iter().for_each(|a| walk(a, map, true, arr || vec, true, out, paths)),
+        "HashMap" | "BTreeMap" => args.iter().for_each(|a| walk(a, true, vec, arr, true, out, paths)),
         _ => {
           if single {
-            out.push((name, map, vec, arr));
+            out.push((name, map, vec, arr, wrap));
           } else {
             paths.push(tp.path.segments.iter().map(|s| s.ident.to_string()).collect::<Vec<_>>().join("::"));
           }
-          args.iter().for_each(|a| walk(a, map, vec, arr, out, paths));
+          args.iter().for_each(|a| walk(a, map, vec, arr, true, out, paths));
         }
       }
     }
-    syn::Type::Reference(r) => walk(&r.elem, map, vec, arr, out, paths),
-    syn::Type::Tuple(t) => t.elems.iter().for_each(|e| walk(e, map, vec, arr, out, paths)),
-    syn::Type::Array(a) => walk(&a.elem, map, vec, arr, out, paths),
-    syn::Type::Slice(a) => walk(&a.elem, map, vec, arr, out, paths),
+    syn::Type::Reference(r) => walk(&r.elem, map, vec, arr, wrap, out, paths),
+    syn::Type::Tuple(t) => t.elems.iter().for_each(|e| walk(e, map, vec, arr, true, out, paths)),
+    syn::Type::Array(a) => walk(&a.elem, map, vec, arr, true, out, paths),
+    syn::Type::Slice(a) => walk(&a.elem, map, vec, arr, true, out, paths),
     _ => {}
   }
 }
@@ -173,10 +173,10 @@ fn refs_of(ty: &str) -> (Vec<Value>, Vec<String>) {
   let mut out = vec![];
   let mut paths = vec![];
   if let Ok(t) = syn::parse_str::<syn::Type>(ty) {
-    walk(&t, false, false, false, &mut out, &mut paths);
+    walk(&t, false, false, false, false, &mut out, &mut paths);
   }
   (
-    out.into_iter().filter(|(n, _, _, _)| !PRELUDE.contains(&n.as_str())).map(|(n, m, v, a)| json!({"to": n, "map": m, "vec": v, "arr": a})).collect(),
+    out.into_iter().filter(|(n, _, _, _, _)| !PRELUDE.contains(&n.as_str())).map(|(n, m, v, a, w)| json!({"to": n, "map": m, "vec": v, "arr": a, "wrap": w})).collect(),
     paths,
   )
 }
